@@ -29,6 +29,12 @@ checks = {
          "client half (Client.Auth) is covered by the Client.tla family once built; exchanges of up to 2 challenges; one representative per response class plus binary octets", SESS),
  "C10": ("session", "Server half: every pre-STARTTLS history class of the bounded model (greeted, authenticated, mid-transaction, mid-BDAT) x {clean, plaintext injected behind the command}; real TLS handshakes over the in-memory pipe; Logout/NewSession/TLS state compared per edge; walks validated by TLC",
          "client half (DialStartTLS/SendMail) is covered by the Client.tla family once built", SESS),
+ "C13": ("lmtp", "Lmtp.tla models the status collector as the code builds it (one bounded channel per distinct address, capacity = multiplicity) with the backend as a nondeterministic program running concurrently with the emitter; TLC checks for every recipient list up to the bound, every program within the contract and every interleaving that each reply carries the right status, channels never overflow, no deadlock, termination; every recipient list x program x status timing (before/after consuming the message) x return {nil, error, panic} is then run on the real LMTP server via DATA, BDAT LAST in one and two chunks, a backend failing inside the LAST chunk, and plain backends, and the recorded reply sequences are judged by TLC against Lmtp!Expected; replies must name their recipient; a final response that never completes is reported when the handler is proven blocked",
+         "recipient lists up to 3 (quick) / 4 (thorough) over two addresses; backend programs stay within the documented contract",
+         "TLA+ model checking (TLC, safety + liveness) + exhaustive program enumeration on the real server judged by TLC"),
+ "C18": ("lmtpclient", "LmtpClient.tla models the client's recipient list over several transactions (MAIL starts it afresh, RCPT appends when accepted, Close reads one reply per listed recipient); TLC checks that Close reads exactly what the server owes and reports this transaction's recipients; the real LMTP client is driven against the real LMTP server through 1..3 transactions with verdict vectors over {250,450,550}, recipients refused at RCPT, Reset in between, with and without status callback, and every Close result (callback sequence, returned error) is judged by TLC against the declarative definitions; a Close that waits for replies that never come is caught by a short SubmissionTimeout",
+         "recipients per transaction up to 2 (quick) / 3 (thorough)",
+         "TLA+ model checking (TLC) + recorded client results judged by TLC"),
  "C19": ("limiter+session", "Limiter.tla: TLC checks, for every stream, segmentation and buffer refill pattern up to the bound, that the line reader's results are the declarative ones (lines split at LF, refusal at the first line longer than the limit, unterminated tails never executed) and that unparsed input held is bounded by limit+buffer; on the real server, line lengths limit-2..limit+3 in five positions of a conversation x three segmentations are recorded and judged by TLC (Trace_Limiter); every BAD/LONG edge of the session graph (error threshold, close, also inside an AUTH exchange) is replayed; all short strings over {NUL,CR,SP,A,':',0xFF} and seeded random binary lines are sent pipelined and their traces validated by TLC against SmtpServer.tla; an endless line must close the connection after a bounded number of octets; the error log must stay free of recovered panics",
          "Limiter.tla is checked with a scaled-down buffer; the declarative result does not depend on the buffer size; hostile lines are mapped to BAD variants by a classifier mirroring parseCmd; heap is not measured, octets consumed before closing are",
          "TLA+ model checking (TLC) + TLC-judged recorded cases + edge replay + trace validation"),
